@@ -702,6 +702,21 @@ class Interp:
                         cid = "%s.%s" % (ctx.cls.name, a.attr)
                         self.continuations[cid] = (ctx.cls, a.attr)
                         conts.append(cid)
+                    elif isinstance(a, ast.Name):
+                        # a closure defined in the enclosing function
+                        p_ = getattr(call, "_parent", None)
+                        while p_ is not None and not isinstance(p_, (ast.FunctionDef, ast.AsyncFunctionDef)):
+                            p_ = getattr(p_, "_parent", None)
+                        nested = None
+                        while p_ is not None and nested is None:
+                            nested = next((n for n in ast.walk(p_) if isinstance(n, ast.FunctionDef) and n is not p_ and n.name == a.id), None)
+                            p_ = getattr(p_, "_parent", None)
+                            while p_ is not None and not isinstance(p_, (ast.FunctionDef, ast.AsyncFunctionDef)):
+                                p_ = getattr(p_, "_parent", None)
+                        if nested is not None and any(isinstance(x, ast.Call) and self.resolve(x, ctx)[0] is not None for x in ast.walk(nested)):
+                            cid = "%s.<closure %s@%d>" % (ctx.cls.name, nested.name, nested.lineno)
+                            self.continuations[cid] = (ctx.cls, nested)
+                            conts.append(cid)
             info = (stops, tuple(conts))
             self._ext_info[(id(call), ctx.cls.name)] = info
         stops, conts = info
@@ -758,6 +773,14 @@ class Interp:
         locs = {a.arg: 'U' for a in what.args.args}
         self.stack.append(cid)
         try:
+            if isinstance(what, ast.FunctionDef):
+                res = []
+                for (s2, l2, out) in self.run_block(what.body, st, Ctx(cls, dict(locs))):
+                    if out and out[0] == 'raise':
+                        res.append((s2, 'U', out))
+                    else:
+                        res.append((s2, out[1] if out and out[0] == 'return' else C(None), None))
+                return res
             return self.eval_expr(what.body, st, Ctx(cls, locs))
         finally:
             self.stack.pop()
@@ -1367,7 +1390,7 @@ class Explorer:
         A = self.I.ALL
         self.RC, self.B, self.In = A[CONNECTOR], A["Boss"], A["Input"]
         # anchors of the environment (fail closed when one vanishes)
-        for m in ("ws_open", "ws_close", "ws_message", "_stopped", "_tx", "stop", "_initial_connection_failed"):
+        for m in ("ws_open", "ws_close", "ws_message", "_tx", "stop", "_initial_connection_failed"):
             if m not in self.RC.methods:
                 raise AnchorMissing("RendezvousConnector.%s not found" % m)
         for m in ("set_code", "allocate_code", "input_code"):
